@@ -5468,17 +5468,27 @@ class Arc(Curve):
             self.center = Point(start)
             return
 
-        # Correct out of range radii
-        radius_check = (x1prim_sq / rx_sq) + (y1prim_sq / ry_sq)
-        if radius_check > 1:
-            rx *= sqrt(radius_check)
-            ry *= sqrt(radius_check)
-            rx_sq = rx * rx
-            ry_sq = ry * ry
+        try:
+            # Correct out of range radii
+            radius_check = (x1prim_sq / rx_sq) + (y1prim_sq / ry_sq)
+            if radius_check > 1:
+                rx *= sqrt(radius_check)
+                ry *= sqrt(radius_check)
+                rx_sq = rx * rx
+                ry_sq = ry * ry
 
-        t1 = rx_sq * y1prim_sq
-        t2 = ry_sq * x1prim_sq
-        c = sqrt(abs((rx_sq * ry_sq - t1 - t2) / (t1 + t2)))
+            t1 = rx_sq * y1prim_sq
+            t2 = ry_sq * x1prim_sq
+            c = sqrt(abs((rx_sq * ry_sq - t1 - t2) / (t1 + t2)))
+        except (ZeroDivisionError, OverflowError):
+            c = float("nan")
+        if c != c or c == float("inf"):
+            # Radii or a chord whose squares the arithmetic cannot hold: as good as zero, like the radii above.
+            self.sweep = 0
+            self.prx = Point(start)
+            self.pry = Point(start)
+            self.center = Point(start)
+            return
 
         if large_arc_flag == sweep_flag:
             c = -c
